@@ -9,7 +9,8 @@
     succeeded and left the aggregator [a].  [ord] is the iteration order of the [interfaces] HashMap. *)
 From Coq Require Import Permutation.
 From WacV Require Import Str Names NamesSpec Types Checker SubSpec Aggregator AggregatorSpec.
-From WacV Require Import SubSpecProofs AggregatorFrame AggregatorNames AggregatorCanonical AggregatorWitness.
+From WacV Require Import SubSpecProofs AggregatorFrame AggregatorNames AggregatorCanonical AggregatorRemap AggregatorFlat
+     AggregatorHistory AggregatorWitness.
 
 Notation history_ok ord cf fuel tag l a s := (aggregate_all ord cf fuel (agg0 tag) st0 l 0 = inl (a, s)).
 (** the concrete histories of the refutations run with the identity HashMap order, checker fuel 40, fuel 60 *)
@@ -104,6 +105,58 @@ Proof.
 Qed.
 Print Assumptions merge_upper_bound_component_refuted.
 
+(** Proved for FLAT histories.  Vocabulary (proofs/AggregatorRemap.v, AggregatorFlat.v, AggregatorHistory.v):
+    - [Col] is the set of contributor collections; two members with one arena tag are the same collection, and no member
+      has the aggregator's tag [tag0];
+    - [UnfK t k tr] := exists g, unfold g t k = Some tr        (the kind denotes the tree, at some fuel);
+    - [leafk k]: k is a function, a value, or a value type      (KFunc | KValue | KType (TValue _));
+    - [flat_if t x]: interface x has no identifier, no uses, pairwise different export names, and every export is a
+      leaf kind that denotes a resource-free tree in t;
+    - [flat_contrib Col (n, (t, k))]: Col t, t has no owned resource alias, k = KInstance i with [flat_if t (t[i])];
+    - [ckey]: the contributed interface (with its arena tag): each interface is contributed once.
+    No fuel hypothesis is needed: the theorem speaks about successful histories, and an accepting checker verdict is
+    sound whatever the fuel (AggregatorChecker.v).  Not covered: nested instances / components (refuted above), resources,
+    `use`d types, interfaces with identifiers (the interface-id table), one interface contributed twice. *)
+Theorem merge_upper_bound_partial : forall ord cf fuel (Col : types -> Prop) tag0,
+  (forall t1 t2, Col t1 -> Col t2 -> t_tag t1 = t_tag t2 -> t1 = t2) -> (forall t, Col t -> t_tag t <> tag0) ->
+  forall l a s, Forall (flat_contrib Col) l -> NoDup (map ckey l) -> history_ok ord cf fuel tag0 l a s ->
+  forall c, In c l -> forall tr, UnfK (fst (snd c)) (snd (snd c)) tr ->
+    exists merged tm, assoc (Aggregator.canonical a (fst c)) (imports a) = Some merged /\
+                      UnfK (a_types a) merged tm /\ SubCM tm tr.
+Proof. intros ord cf fuel Col tag0 Hs Ht. exact (flat_upper_bound ord cf fuel Col Hs tag0 Ht). Qed.
+Print Assumptions merge_upper_bound_partial.
+
+(** [instance_merge_is_union] (and, for a requirement whose exports are all present already, [aggregate_idempotent] /
+    [equal_requirements_merge_to_self] in the form "nothing observable changes"): one successful aggregation of a flat
+    requirement into the import that carries its name (exact, or the semver-compatible one) leaves that import an
+    interface whose export names are the first-seen union; every export keeps its tree (see [flat_upper_bound]'s
+    invariant [carried] / [grows] in AggregatorHistory.v).  Full statement for arbitrary requirements: refuted by the
+    same nested-instance witness (the nested export keeps the poorer instance). *)
+Theorem instance_merge_is_union_partial : forall ord cf fuel (Col : types -> Prop) tag0,
+  (forall t1 t2, Col t1 -> Col t2 -> t_tag t1 = t_tag t2 -> t1 = t2) -> (forall t, Col t -> t_tag t <> tag0) ->
+  forall a s done c a' s' y exs,
+  HInv Col tag0 a s done -> flat_contrib Col c ->
+  (assoc (fst c) (a_imports a) = Some (KInstance y) \/
+   (assoc (fst c) (a_imports a) = None /\ exists en, find_compat (fst c) (a_imports a) = Some (en, KInstance y))) ->
+  get_if (a_types a) y = Some (mkif None [] exs) ->
+  aggregate ord cf fuel a s (fst c) (fst (snd c)) (snd (snd c)) = AOk (a', s') ->
+  forall i x, snd (snd c) = KInstance i -> get_if (fst (snd c)) i = Some x ->
+    exists exs', get_if (a_types a') y = Some (mkif None [] exs') /\
+                 map fst exs' = first_seen_union (map fst exs) (map fst (i_exports x)).
+Proof. intros ord cf fuel Col tag0 Hs Ht. exact (flat_merge_is_union ord cf fuel Col Hs tag0 Ht). Qed.
+Print Assumptions instance_merge_is_union_partial.
+
+(** [HInv] is the invariant of flat histories: it holds initially and after every successful flat aggregation. *)
+Theorem flat_history_invariant : forall ord cf fuel (Col : types -> Prop) tag0,
+  (forall t1 t2, Col t1 -> Col t2 -> t_tag t1 = t_tag t2 -> t1 = t2) -> (forall t, Col t -> t_tag t <> tag0) ->
+  HInv Col tag0 (agg0 tag0) st0 [] /\
+  forall a s done c a' s', HInv Col tag0 a s done -> flat_contrib Col c -> ~ In (ckey c) (map ckey done) ->
+    aggregate ord cf fuel a s (fst c) (fst (snd c)) (snd (snd c)) = AOk (a', s') -> HInv Col tag0 a' s' (c :: done).
+Proof.
+  intros ord cf fuel Col tag0 Hs Ht. split; [exact (HInv_nil Col tag0) | exact (HInv_step ord cf fuel Col Hs tag0 Ht)].
+Qed.
+Print Assumptions flat_history_invariant.
+
 (** * 3. Order independence and failure
 
     Full statements: for permutations of the contributor list success is the same and the name -> tree map is the
@@ -143,6 +196,17 @@ Proof.
     exact (conj H1 (conj H2 (conj H3 (conj eq_refl H4)))).
 Qed.
 Print Assumptions fails_iff_conflict_refuted.
+
+(** Non-vacuity of the flat theorems: anonymous interfaces {f}, {g}, {f,h} under three versions of one track merge to
+    the union under the highest version. *)
+Example flat_nonvacuous :
+  Forall (flat_contrib anon_col) w_anon /\ NoDup (map ckey w_anon) /\
+  (forall t1 t2, anon_col t1 -> anon_col t2 -> t_tag t1 = t_tag t2 -> t1 = t2) /\ (forall t, anon_col t -> t_tag t <> 0) /\
+  exists a s, run w_anon = inl (a, s) /\ map fst (imports a) = [n_023] /\
+              merged_tree a n_023 =
+              Some (XInst [([102], XFunc (mkft [] None false)); ([103], XFunc (mkft [([120], VTPrim PU8)] None false));
+                           ([104], XFunc (mkft [] (Some (VTPrim PString)) false))]).
+Proof. exact (conj w_anon_flat (conj w_anon_distinct (conj anon_col_same (conj anon_col_tag anon_run)))). Qed.
 
 (** Non-vacuity of the partial theorems: three versions of one track arriving as 0.2.1, 0.2.0, 0.2.3. *)
 Example canonical_nonvacuous :
